@@ -160,17 +160,38 @@ def check(ctx, run):
 
 
 def forward_start_index_hazard(ctx, run, rule):
+    """the start column of the forward-start option, read off the call payoff_fn makes to the payoff functional (whether the index is computed
+    in a helper method or inline): floor / int of a quotient of floats must be guarded against rounding"""
     prog, interp = ctx.prog, ctx.interp
-    si = prog.functions.get("pfhedge.instruments.derivative.cliquet.EuropeanForwardStartOption._start_index")
-    if si is None:
-        raise AnalysisError("anchor vanished: EuropeanForwardStartOption._start_index")
-    dd = Obj("pfhedge.instruments.derivative.cliquet.EuropeanForwardStartOption", "deriv")
-    val = single(interp.explore(si, [], {}, self_obj=dd))["value"]
-    hazard = any(isinstance(s, Op) and s.op in ("py_floor", "py_ceil", "py_int", "floordiv") for s in walk(val)) and not rounding_guarded(val)
-    run.oblige(rule, "EuropeanForwardStartOption._start_index", not hazard, str(val))
-    if hazard:
-        run.fail(Finding(rule, si.qualname, hazard_key(val), "floor of an unguarded float quotient: a start time that is an exact multiple of dt up to rounding selects the previous step",
-                         file=str(prog.modules[si.module].path), line=si.node.lineno, witness="start=4.3, dt=0.1 -> index 42 (43 expected)"))
+    cq = "pfhedge.instruments.derivative.cliquet.EuropeanForwardStartOption"
+    pf = prog.lookup_method(cq, "payoff_fn")
+    if pf is None:
+        raise AnalysisError("anchor vanished: EuropeanForwardStartOption.payoff_fn")
+    dd = W.option(cls=cq)
+    dd.attrs.setdefault("start", W.fl("start"))
+    try:
+        res = [r for r in interp.explore(pf, [], {}, self_obj=dd) if not r["raises"]]
+    except Unsupported as ex:
+        raise AnalysisError(f"EuropeanForwardStartOption.payoff_fn: {ex}")
+    vals = []
+    for r in res:
+        for e in r["events"]:
+            if e["kind"] == "call" and e["callee"].endswith("european_forward_start_payoff"):
+                fparams = [a.arg for a in prog.functions[e["callee"]].node.args.args]
+                kw = dict(e["kwargs"])
+                for k_, v_ in zip(fparams, e["args"]):
+                    kw[k_] = v_
+                if "start_index" in kw:
+                    vals.append(kw["start_index"])
+    if not vals:
+        raise AnalysisError("EuropeanForwardStartOption.payoff_fn: the start index handed to european_forward_start_payoff was not found")
+    si = prog.functions.get(cq + "._start_index") or pf
+    for val in vals[:1]:
+        hazard = any(isinstance(s, Op) and s.op in ("py_floor", "py_ceil", "py_int", "floordiv") for s in walk(val)) and not rounding_guarded(val)
+        run.oblige(rule, "EuropeanForwardStartOption: start index", not hazard, str(val))
+        if hazard:
+            run.fail(Finding(rule, si.qualname, hazard_key(val), "floor of an unguarded float quotient: a start time that is an exact multiple of dt up to rounding selects the previous step",
+                             file=str(prog.modules[si.module].path), line=si.node.lineno, witness="start=4.3, dt=0.1 -> index 42 (43 expected)"))
 
 
 def time_to_maturity_rule(ctx, run):
